@@ -15,7 +15,8 @@ RULE = (
     "successful parse is checked inside the worker: spans inside start_pos..len and inside the parent, "
     "text/str/as_str/span consistent with the input slice, children ordered and non-overlapping, names are "
     "non-silent rules or EOI, tags are written in the grammar, tokens() balanced with non-decreasing "
-    "positions, flatten() is its pre-order, inner()/stream() step through the children, one root pair at "
+    "positions and exactly the Start(start) .. children .. End(end) stream of the pairs, "
+    "flatten() is its pre-order, inner()/stream() step through the children, one root pair at "
     "start_pos for a non-silent start rule, dump()/dumps() render and agree. Non-trivial: a successful parse "
     "with >= 3 pairs or nesting depth >= 2; distinct by hash of (grammar, mode, rule, input, k)."
 )
